@@ -204,6 +204,9 @@ class PVLEncoder(object):
                 break_long_words=False,
                 break_on_hyphens=False,
             )
+            if not lines:
+                # Nothing after the equals sign to wrap (yet).
+                return prefix + s
             return self.newline.join(lines)
         else:
             return prefix + s
